@@ -179,8 +179,20 @@ def check_lib(ctx):
     rr = [canon(s.value) for s in A.walk_local(wt) if isinstance(s, ast.Return)]
     okw = sorted(rr) == sorted([canon(parse("tt.shape_padright(t) - self.t0")), canon(parse("t - self.t0"))])
     ta = ctx.prog.func(KO, "KeplerianOrbit._get_true_anomaly", R)
-    md = [s for s in A.walk_local(ta) if isinstance(s, ast.Assign) and canon(s.targets[0]) == "M"]
-    okm = len(md) == 1 and canon(md[0].value) == canon(parse("(self._warp_times(t, _pad=_pad) - self.tref) * self.n"))
+    # the mean anomaly is the first argument of the Kepler solver (ops.kepler), whatever the local is called
+    kc = [c for c in A.calls_in(ta) if (A.call_name(c) or "").endswith("kepler") and c.args]
+    mexpr = A.inline_temporaries(kc[0].args[0], A.enclosing_stmt(kc[0]), ta) if len(kc) == 1 else None
+    md = [ast.Assign(targets=[ast.Name(id="M", ctx=ast.Store())], value=mexpr)] if mexpr is not None else []
+    okm = mexpr is not None and canon(mexpr) == canon(parse("(self._warp_times(t, _pad=_pad) - self.tref) * self.n"))
+    if okm:
+        # (sin f, cos f) are returned in that order
+        fl_ta = A.Flow(ta)
+        for v_, s_ in fl_ta.returns:
+            if isinstance(s_.value, ast.Tuple) and len(s_.value.elts) == 2 and all(isinstance(e_, ast.Name) for e_ in s_.value.elts):
+                src0 = A.unpack_source(s_.value.elts[0].id, s_)
+                src1 = A.unpack_source(s_.value.elts[1].id, s_)
+                if src0 and src1 and not (src0[1] == 0 and src1[1] == 1 and (A.call_name(src0[0]) or "").endswith("kepler")):
+                    okm = False
     ctx.check(R, ta, "orbit: mean anomaly M = ((t - t0) - (t_periastron - t0)) n = (t - t_periastron) n", okw and okm, "warp: %s ; M = %s" % (rr, A.unparse(md[0].value) if md else None), key="lib:M")
     gv = ctx.prog.func(KO, "KeplerianOrbit.get_radial_velocity", R)
     rets = [s for s in A.walk_local(gv) if isinstance(s, ast.Return) and any(pol and canon(t) == canon(parse("K is not None")) for t, pol in A.guards_of(s)) and not any("ecc is None" in A.unparse(t) and pol for t, pol in A.guards_of(s))]
@@ -189,7 +201,14 @@ def check_lib(ctx):
         v = rets[0].value
         if isinstance(v, ast.Call) and (A.call_name(v) or "").endswith("squeeze"):
             v = v.args[0]
-        okk = equal(v, parse("K * (self.cos_omega * cosf - self.sin_omega * sinf + self.ecc * self.cos_omega)"))
+        # sin f / cos f: the two values unpacked from self._get_true_anomaly(t), in that order
+        env = {}
+        for nme in {n.id for n in ast.walk(v) if isinstance(n, ast.Name)}:
+            src = A.unpack_source(nme, rets[0])
+            if src and A.last_attr(src[0]) == "_get_true_anomaly":
+                env[nme] = ast.Name(id=("sinf", "cosf")[src[1]] if src[1] in (0, 1) else nme, ctx=ast.Load())
+        v = A._Subst(env, False).visit(A.clone(v)) if env else v
+        okk = equal(v, parse("K * (self.cos_omega * cosf - self.sin_omega * sinf + self.ecc * self.cos_omega)")) and set(x.id for x in env.values()) == {"sinf", "cosf"}
     ctx.check(R, gv, "orbit: v_r = K (cos(omega + f) + e cos omega)", okk, "K-branch returns `%s`" % (A.unparse(rets[0].value)[:100] if rets else None), key="lib:rv")
     co = [s for s in A.walk_local(ki) if isinstance(s, ast.Assign) and dotted(s.targets[0]) in ("self.cos_omega", "self.sin_omega") and "self.omega" in A.unparse(s.value)]
     okc = sorted(canon(s.value) for s in co) == sorted([canon(parse("tt.cos(self.omega)")), canon(parse("tt.sin(self.omega)"))])
